@@ -4,7 +4,7 @@
   flow; tied to /repo by the `c11` correspondence suite.  Core Lean only.
 
     §1 bits, readCode, totalBitsInLayer, convertBoolArrayToByteArray
-    §2 extractBits (alignmentMap, layer spiral read order)
+    §2 (file Gzx/Model/AztecExtract.lean) extractBits (alignmentMap, layer spiral read order)
     §3 Reed-Solomon decoder (mirror of common/reedsolomon, used by the executable model; the
        theorems take the decoder as a parameter)
     §4 correctBits (codeword size / field by layer count, RS, un-stuffing, format errors)
@@ -16,6 +16,7 @@
   `fix: aztec getEncodedData capacity` (D10) and `fix: aztec unregistered ECI` (D11).
 -/
 import Gzx.Util
+import Gzx.Model.AztecExtract
 namespace Gzx.AztecDecoder
 
 /-! ## §1 bits -/
@@ -42,64 +43,6 @@ def convertBoolArrayToByteArray : Nat → List Bool → List Nat
     (readCode h * 2 ^ (8 - h.length)) :: convertBoolArrayToByteArray fuel (bs.drop 8)
 
 def toByteArray (bs : List Bool) : List Nat := convertBoolArrayToByteArray (bs.length + 1) bs
-
-/-! ## §2 extractBits -/
-
-abbrev Matrix := List (List Bool)   -- rows; `m[y][x]`
-
-/-- `matrix.Get(x, y)`; the model is only specified for in-range coordinates -/
-def getBit (m : Matrix) (x y : Nat) : Res Bool :=
-  match m[y]? with
-  | none => .error (.panic "matrix.Get: y out of range")
-  | some row =>
-    match row[x]? with
-    | none => .error (.panic "matrix.Get: x out of range")
-    | some b => .ok b
-
-def baseMatrixSize (layers : Nat) (compact : Bool) : Nat :=
-  layers * 4 + (if compact then 11 else 14)
-
-/-- Go: `matrixSize := baseMatrixSize + 1 + 2*((baseMatrixSize/2-1)/15)` (full-range only) -/
-def matrixSize (layers : Nat) (compact : Bool) : Nat :=
-  let b := baseMatrixSize layers compact
-  if compact then b else b + 1 + 2 * ((b / 2 - 1) / 15)
-
-/-- `alignmentMap[idx]` as the closed form of the two assignments in the Go loop
-      alignmentMap[origCenter-i-1] = center - (i + i/15) - 1
-      alignmentMap[origCenter+i]   = center + (i + i/15) + 1        (0 ≤ i < origCenter) -/
-def alignmentMap (layers : Nat) (compact : Bool) (idx : Nat) : Nat :=
-  if compact then idx
-  else
-    let b := baseMatrixSize layers compact
-    let origCenter := b / 2
-    let center := matrixSize layers compact / 2
-    if idx < origCenter then
-      let i := origCenter - 1 - idx
-      center - (i + i / 15) - 1
-    else
-      let i := idx - origCenter
-      center + (i + i / 15) + 1
-
-/-- read coordinates (x, y) of one layer, in the order of the rawbits indices it fills:
-    four sides of `rowSize` dominoes, each domino k = 0,1 -/
-def layerPositions (layers : Nat) (compact : Bool) (i : Nat) : List (Nat × Nat) :=
-  let am := alignmentMap layers compact
-  let rowSize := (layers - i) * 4 + (if compact then 9 else 12)
-  let low := i * 2
-  let high := baseMatrixSize layers compact - 1 - low
-  let jk := (List.range rowSize).flatMap (fun j => [(j, 0), (j, 1)])
-  jk.map (fun (j, k) => (am (low + k), am (low + j)))          -- left column
-  ++ jk.map (fun (j, k) => (am (low + j), am (high - k)))      -- bottom row
-  ++ jk.map (fun (j, k) => (am (high - k), am (high - j)))     -- right column
-  ++ jk.map (fun (j, k) => (am (high - j), am (low + k)))      -- top row
-
-/-- all read coordinates in rawbits order -/
-def readPositions (layers : Nat) (compact : Bool) : List (Nat × Nat) :=
-  (List.range layers).flatMap (layerPositions layers compact)
-
-/-- Go `extractBits` -/
-def extractBits (m : Matrix) (layers : Nat) (compact : Bool) : Res (List Bool) :=
-  (readPositions layers compact).mapM (fun (x, y) => getBit m x y)
 
 /-! ## §3 Reed-Solomon decoder mirror (ReedSolomonDecoder.Decode over GenericGF, generator base 1)
 
@@ -435,7 +378,8 @@ def step (T : Tables) (registered : Nat → Bool) (c : Ctl) (bits : List Bool) :
       | none => .stop
       | some (length, bits2) =>
         let (bytes, rest) := takeBytes length bits2 []
-        .next ⟨c.latch, c.latch⟩ rest [.bytes bytes]
+        -- appending no bytes (the bits ran out at once) is not an event
+        .next ⟨c.latch, c.latch⟩ rest (if bytes.isEmpty then [] else [.bytes bytes])
   else
     let size := if c.shift = .digit then 4 else 5
     match splitN? size bits with
